@@ -246,4 +246,22 @@ CHECKS["C19"] = {
     "note": TB,
 }
 
+CHECKS["C10"] = {
+    "technique": "runtime monitoring: postcondition oracle on every run_ode "
+                 "result, wrappers counting right-hand-side evaluations and "
+                 "RK45 constructions (bounded progress), recomputation of J "
+                 "/ T / differentials, analytic expm reference for linear "
+                 "programs",
+    "text": "run_ode of the real code is driven with bundled systems x "
+            "controller families, linear programs with closed-form solutions "
+            "and hostile controllers (blow-up now / later / NaN / inf / "
+            "9.9e9 / growing / stateful shrinking failure time, time "
+            "dependent laws); every result must be a full, sane, "
+            "self-consistent table or the failure row; termination is "
+            "decided as bounded progress (<= 5 cycles, RHS budget; "
+            "over-budget runs are reported undecided). Held on the programs "
+            "executed.",
+    "note": TB + "; scipy RK45 and expm",
+}
+
 NOT_APPLICABLE = {}
